@@ -84,3 +84,44 @@ Example C05_hyp_satisfiable :
   mem 0 (que s) = true /\ In 1 (todo (getn (ns s) 2)) /\
   ~ In 1 (todo (getn (ns (fst (res ex_chain 0 1 1%Z Failure [] s))) 2)).
 Proof. vm_compute. repeat split; auto; try (intros [H|[]]; discriminate); try tauto. Qed.
+
+(* ---- worker side (dawgie/pl/worker/cluster.py::execute, Model/WorkerReply.v):
+   whatever way a run ends other than a normal return -- an exception, invalid
+   data, SystemExit, KeyboardInterrupt -- the farm receives a response that is
+   not a success (so Hand._res runs and the theorems above apply to it); the task
+   message is never sent back; values are reported only by a normal return; the
+   only silent ending is the one the pipeline asked for (ctxt.abort()). ---- *)
+From DV Require Model.WorkerReply Proofs.WorkerReplyProofs.
+
+Theorem C05_worker_reports_every_failure : forall e,
+  e <> DV.Model.WorkerReply.Returned ->
+  (exists s v, DV.Model.WorkerReply.reply e false = DV.Model.WorkerReply.Response s v) /\
+  (DV.Model.WorkerReply.outcome_of (DV.Model.WorkerReply.reply e false) = Some DV.Model.WorkerReply.WFailure \/
+   DV.Model.WorkerReply.outcome_of (DV.Model.WorkerReply.reply e false) = Some DV.Model.WorkerReply.WInvalid).
+Proof.
+  intros e H. split; [apply DV.Proofs.WorkerReplyProofs.reply_is_response|].
+  apply DV.Proofs.WorkerReplyProofs.reply_failure_reported; exact H.
+Qed.
+Print Assumptions C05_worker_reports_every_failure.
+
+Theorem C05_worker_reply_exact : forall e a,
+  DV.Model.WorkerReply.reply e a <> DV.Model.WorkerReply.TaskEcho /\
+  (DV.Model.WorkerReply.outcome_of (DV.Model.WorkerReply.reply e false) = Some DV.Model.WorkerReply.WSuccess
+     <-> e = DV.Model.WorkerReply.Returned) /\
+  (DV.Model.WorkerReply.outcome_of (DV.Model.WorkerReply.reply e false) = Some DV.Model.WorkerReply.WInvalid
+     <-> (e = DV.Model.WorkerReply.InvalidIn \/ e = DV.Model.WorkerReply.InvalidOut)) /\
+  (forall s, DV.Model.WorkerReply.reply e false = DV.Model.WorkerReply.Response s true
+     -> e = DV.Model.WorkerReply.Returned) /\
+  DV.Model.WorkerReply.reply e true = DV.Model.WorkerReply.Silent.
+Proof.
+  intros e a. split; [apply DV.Proofs.WorkerReplyProofs.reply_never_echo|].
+  split; [apply DV.Proofs.WorkerReplyProofs.reply_success_iff|].
+  split; [apply DV.Proofs.WorkerReplyProofs.reply_invalid_iff|].
+  split; [apply DV.Proofs.WorkerReplyProofs.reply_values_only_on_success|reflexivity].
+Qed.
+Print Assumptions C05_worker_reply_exact.
+
+Example C05_worker_example :
+  DV.Model.WorkerReply.outcome_of (DV.Model.WorkerReply.reply DV.Model.WorkerReply.Exited false)
+  = Some DV.Model.WorkerReply.WFailure.
+Proof. reflexivity. Qed.
